@@ -253,6 +253,9 @@ fn ctx_from(flags: u32) -> Context {
     Context { face_cull: cull, depth_sort: sort, depth_test: test, color_write: flags / 36 % 2 == 0, depth_write: flags / 72 % 2 == 0, ..Context::default() }
 }
 
+const SCALE_TINY: f32 = 1.0 / 134217728.0;
+const SCALE_HUGE: f32 = 1048576.0;
+
 fn proj_matrix(p: u8) -> Mat4x4<RealToProj<View>> {
     match p {
         0 => perspective(1.0, 1.0, 1.0..2.0),
@@ -261,6 +264,9 @@ fn proj_matrix(p: u8) -> Mat4x4<RealToProj<View>> {
         3 => perspective(2.0, 0.75, 1.0..2.0),
         // a scene measured in millimetres: near = 0.001, far/near = 1000
         7 => perspective(1.0, 1.0, 0.001..1.0),
+        // the unit of length is arbitrary: near = 2^-27 (7.5e-9) and near = 2^20, far/near = 1000
+        8 => perspective(1.0, 1.0, SCALE_TINY..1000.0 * SCALE_TINY),
+        9 => perspective(1.0, 1.0, SCALE_HUGE..1000.0 * SCALE_HUGE),
         4 => orthographic(pt3(-1.0, -1.0, -1.0), pt3(1.0, 1.0, 1.0)),
         5 => orthographic(pt3(-1000.0, -1.0, 0.5), pt3(1000.0, 3.0, 1000.0)),
         _ => orthographic(pt3(0.5, -3.0, 1.0), pt3(3.0, -0.5, 2.0)),
@@ -371,6 +377,20 @@ fn run_safety(cfg: &Cfg) -> ! {
             if i % 5 == 0 { let (bw, bh, vp) = cfgs[((i / 5) % nc) as usize]; check_safety(&t, SafetyCfg { proj: pi, bw, bh, vp, flags: 9, sub: true }, r); }
         }));
     }
+    // the same soups in other units of length (every coordinate and near/far scaled by 2^-27 and by 2^20)
+    for (pi, sc) in [(8u8, SCALE_TINY), (9, SCALE_HUGE)] {
+        let pts: Vec<[f32; 3]> = safety_lattice(true, 1000.0).iter().map(|p| p.map(|c| c * sc)).collect();
+        let n = pts.len() as u64;
+        rep.set(&format!("lattice_points:proj{pi}"), n);
+        let stride = if quick { 3 } else { 1 };
+        rep.merge(par_range(cfg, n * n * n / stride, |j, r| {
+            let i = j * stride + j % stride;
+            let t = [pts[(i % n) as usize], pts[(i / n % n) as usize], pts[(i / n / n) as usize]];
+            let (bw, bh, vp) = cfgs[((i + i / n) % nc) as usize];
+            check_safety(&t, SafetyCfg { proj: pi, bw, bh, vp, flags: flagsets[(i / 7 % 4) as usize], sub: i % 3 == 0 }, r);
+            r.h("rescaled-scene");
+        }));
+    }
     // the camera door with viewport requests that overhang the frame
     {
         let pts = safety_lattice(true, 1000.0);
@@ -437,7 +457,7 @@ fn run_safety(cfg: &Cfg) -> ! {
     }));
     rep.sample(0, || obj! {"view_space_triangle" => vec![vec![-1000.0f32, 3.0, 1.0], vec![0.0, 0.0, 0.0], vec![3.0, -1.0, 1000.0]], "projection" => "perspective(1,1,1..1000)", "buffer" => "7x5 sub-view, viewport (2,1)..(5,4)", "flags" => "cull Back, test Less"});
     rep.finish(cfg, "exploration",
-        "view-space triangle soups: every ordered vertex triple (repeats included: degenerate and zero-area triangles) over an adversarial lattice in units of near (0, +-0.5, +-1, +-3, +-1000; z behind the eye, 0, on near, near(1+2^-20), far/2, far, far(1+2^-20), 1000) through the library's own perspective (far/near 2 and 1000; also a millimetre-scale scene with near 0.001 on 2048-pixel wide/tall targets; also through Camera::render with viewport requests that overhang the frame; focal 0.5/1/2) and orthographic matrices and viewport(), into buffers 1x1..16x16 with full, 1x1, interior and edge-touching viewports, owned and strided sub-view targets, with 4 Context flag sets by rotation; plus all 144 flag combinations x 256 soups of 1-3 (coincident / degenerate) triangles x 3 projections, sub-pixel triangles of size 2^-4..2^-17 at every lattice point, and tessellated walls of 8/30/72 triangles at tilts 0..1 (many nearly equal depth keys) under 36 cull/sort/test combinations. Oracle: no panic, every cell outside the viewport (incl. the enclosing parent buffers) keeps its sentinel, no NaN in the depth buffer. non-trivial = the scene wrote at least one cell.",
+        "view-space triangle soups: every ordered vertex triple (repeats included: degenerate and zero-area triangles) over an adversarial lattice in units of near (0, +-0.5, +-1, +-3, +-1000; z behind the eye, 0, on near, near(1+2^-20), far/2, far, far(1+2^-20), 1000) through the library's own perspective (far/near 2 and 1000; also the far/near 1000 soups with every length scaled by 2^-27 and by 2^20; also a millimetre-scale scene with near 0.001 on 2048-pixel wide/tall targets; also through Camera::render with viewport requests that overhang the frame; focal 0.5/1/2) and orthographic matrices and viewport(), into buffers 1x1..16x16 with full, 1x1, interior and edge-touching viewports, owned and strided sub-view targets, with 4 Context flag sets by rotation; plus all 144 flag combinations x 256 soups of 1-3 (coincident / degenerate) triangles x 3 projections, sub-pixel triangles of size 2^-4..2^-17 at every lattice point, and tessellated walls of 8/30/72 triangles at tilts 0..1 (many nearly equal depth keys) under 36 cull/sort/test combinations. Oracle: no panic, every cell outside the viewport (incl. the enclosing parent buffers) keeps its sentinel, no NaN in the depth buffer. non-trivial = the scene wrote at least one cell.",
         &["|coordinate| <= 1000 x near, far/near <= 1000", "clip-space origin unreachable through these matrices (see DESIGN C02)"]);
 }
 
@@ -600,6 +620,44 @@ fn order_pool() -> Vec<STri> {
     ]
 }
 
+/// Scenes aimed at the resolution of the depth test: a tilted triangle and a flat one whose stored reciprocal depth at one
+/// chosen pixel is the bit-neighbour (one ulp nearer or farther) of the tilted triangle's there - no exact tie, so the
+/// nearer one must win in every history. (Depths more than an ulp apart never expose a test that loses resolution.)
+fn check_order_ulp(i: u64, r: &mut Report) {
+    let tilt = [[1.0f32, 3.0, 2.0], [2.0, 1.0, 1.5], [0.7, 0.9, 1.3], [5.0, 3.0, 9.0], [0.3, 0.45, 0.6]][(i % 5) as usize];
+    let delta: i32 = [1, -1][(i / 5 % 2) as usize];
+    let p = (i / 10) as usize; // pixel of the 8x8 frame
+    let corners = [[-1.0f32, -1.0], [1.0, -1.0], [-1.0, 1.0]];
+    let tri = |w: [f32; 3], a: [f32; 3]| STri { v: std::array::from_fn(|k| [corners[k][0] * w[k], corners[k][1] * w[k], 0.5 * w[k], w[k]]), a };
+    let t = tri(tilt, PERMS[0]);
+    let solo_scene = Scene { tris: vec![t.clone()], bw: 8, bh: 8, vp: (0, 0, 8, 8) };
+    let Ok(o) = render_scene(&solo_scene, None, Door::Render, TargetKind::Owned, &ctx_plain(), Discard::Never, None) else { return; };
+    if o.color[p] == color_sentinel(p) { r.h("ulp-aimed:pixel-not-covered"); return; }
+    let d = o.depth.unwrap()[p];
+    let want = f32::from_bits((d.to_bits() as i32 + delta) as u32);
+    let w0 = 1.0 / want;
+    let Some(wf) = (-4i32..=4).map(|k| f32::from_bits((w0.to_bits() as i32 + k) as u32)).find(|w| 1.0 / *w == want) else { r.h("ulp-aimed:no-flat-w-reaches-the-neighbour"); return; };
+    let f = tri([wf; 3], PERMS[3]);
+    let sc = Scene { tris: vec![t, f], bw: 8, bh: 8, vp: (0, 0, 8, 8) };
+    // the flat triangle must really store the neighbouring value at that pixel for the scene to be on target
+    match render_scene(&sc, Some(&[1]), Door::Render, TargetKind::Owned, &ctx_plain(), Discard::Never, None) {
+        Ok(of) if of.color[p] != color_sentinel(p) && of.depth.as_ref().unwrap()[p].to_bits() == want.to_bits() => { r.h(if delta > 0 { "ulp-aimed:flat-one-ulp-nearer" } else { "ulp-aimed:flat-one-ulp-farther" }); r.nontrivial(); }
+        _ => { r.h("ulp-aimed:flat-depth-off-target"); }
+    }
+    explore_order(&sc, r, 1_000_000 + i, Discard::Never);
+}
+
+/// Layers far from the viewer relative to the near plane (near 0.1, far 1000; view depths 500 and 900) whose depth gaps
+/// (0.07 .. 0.4) are small next to their distance: disjoint depth ranges all the same, distinct clip z and distinct 1/w.
+fn far_pool() -> Vec<STri> {
+    let (e22, e23) = (1000.1f32 / 999.9, -200.0f32 / 999.9);
+    let mk = |xy: [[f32; 2]; 3], w: f32, a: f32| STri { v: std::array::from_fn(|k| [xy[k][0] * w, xy[k][1] * w, e22 * w + e23, w]), a: [a, a + 0.01, a + 0.02] };
+    let f0 = [[-0.9, -0.9], [0.9, -0.8], [-0.1, 0.9]];
+    let f1 = [[-0.7, 0.8], [0.8, 0.7], [0.0, -0.9]];
+    let f2 = [[-0.9, -0.2], [0.9, -0.3], [0.9, 0.6]];
+    vec![mk(f0, 900.0, 0.1), mk(f1, 900.2, 0.3), mk(f2, 900.4, 0.5), mk(f1, 500.0, 0.2), mk(f2, 500.07, 0.4), mk(f0, 500.14, 0.6)]
+}
+
 fn run_order(cfg: &Cfg) -> ! {
     let quick = cfg.quick();
     let pool = order_pool();
@@ -615,6 +673,13 @@ fn run_order(cfg: &Cfg) -> ! {
         if scenes[i as usize].len() <= 3 { explore_order(&sc, r, i, Discard::Parity); }
         r.sample(i, || obj! {"scene_triangles" => scenes[i as usize].clone(), "example_history" => "render([2,0], FrontToBack) ; render([1], None)"});
     });
+    rep.merge(par_range(cfg, 640, check_order_ulp));
+    {
+        let fp = far_pool();
+        let mut fs: Vec<Vec<usize>> = vec![];
+        for a in 0..fp.len() { for b in a + 1..fp.len() { fs.push(vec![a, b]); fs.push(vec![b, a]); for c in b + 1..fp.len() { fs.push(vec![a, b, c]); fs.push(vec![c, a, b]); } } }
+        rep.merge(par_range(cfg, fs.len() as u64, |i, r| { let sc = Scene { tris: fs[i as usize].iter().map(|&k| fp[k].clone()).collect(), bw: 8, bh: 8, vp: (0, 0, 8, 8) }; explore_order(&sc, r, 2_000_000 + i, Discard::Never); r.h("far-layer-scenes"); }));
+    }
     rep.set("scenes", ns);
     rep.finish(cfg, "model_checking",
         "explicit-state search per scene of n<=4 (thorough <=6) triangles on an 8x8 Framebuf: state = (set of submitted triangles, colour buffer, depth buffer); transition = one real render() call with ANY non-empty ordered subset of the not yet submitted triangles x depth_sort in {None, FrontToBack, BackToFront}; states deduplicated on the full tuple; invariant in every state: each pixel holds colour and depth of the nearest (largest 1/w) submitted triangle covering it, where coverage, colour and stored depth per triangle come from solo renders (differential oracle), but WHICH triangle is nearest at a pixel - is decided by an independent f64 projective solve whenever the two differ by more than 1e-5 relative, and by the stored f32 depths (exact ties exempt) for closer calls; plus: depth test off + BackToFront == depth-buffered image for scenes with disjoint depth ranges; scenes of <= 3 triangles are explored a second time with a checkerboard-discarding fragment shader. Scenes: all 2-, 3- and 4-subsets (thorough: also all 5-subsets and two 6-subsets) of a 23-triangle pool with overlapping, identically coloured, 0.03 %-apart, interpenetrating, partially clipped, culled-away, clipped-away (past a frustum corner), behind-the-viewer, coincident-footprint and two-ulp-apart members; depth ranges for the painter clause are those of the exact visible parts.",
@@ -693,6 +758,19 @@ fn check_config(scene: &Scene, flags: u32, discard: Discard, kind: TargetKind, r
         }
         if decidable && st.prims.o != exp { bad.push(format!("prims.o={} but {} triangles survive clipping and culling", st.prims.o, exp)); }
     }
+    // what one call reports for several triangles is the sum of what it reports for each of them alone (clipping, culling
+    // and rasterization treat every triangle on its own: no state may carry over from one triangle to the next)
+    if scene.tris.len() >= 2 {
+        let mut memo: std::collections::HashMap<Vec<u32>, (usize, usize)> = std::collections::HashMap::new();
+        let (mut po, mut fi, mut ok) = (0usize, 0usize, true);
+        for (k, t) in scene.tris.iter().enumerate() {
+            let key: Vec<u32> = t.v.iter().flatten().map(|c| c.to_bits()).collect();
+            let e = match memo.get(&key) { Some(e) => *e, None => match render_scene(scene, Some(&[k]), Door::Render, kind, &ctx, discard, None) { Ok(o) => { let e = (o.stats.prims.o, o.stats.frags.i); memo.insert(key, e); e } Err(_) => { ok = false; break; } } };
+            po += e.0; fi += e.1;
+        }
+        if ok && st.prims.o != po { bad.push(format!("prims.o={} but the triangles rendered one per call give {} in total", st.prims.o, po)); }
+        if ok && st.frags.i != fi { bad.push(format!("frags.i={} but the triangles rendered one per call generate {} fragments in total", st.frags.i, fi)); }
+    }
     // frags.i = number of fragments generated = shader invocations of the base run (no test, culling as configured)
     if st.frags.i as u64 != base.invocations { bad.push(format!("frags.i={} but {} fragments were generated", st.frags.i, base.invocations)); }
     // frags.o = fragments written: count by an independent twin: same config, but colour sentinel diff needs overdraw counting -> use invocation-level reasoning:
@@ -709,14 +787,19 @@ fn check_config(scene: &Scene, flags: u32, discard: Discard, kind: TargetKind, r
 
 /// Culling of triangles far smaller than a pixel that still contain a pixel centre (by more than 0.002 px): whether a
 /// fragment appears is C04's business (it must, the centre is inside), so exactly one vertex order may draw it.
-fn check_cull_small(cx: u32, cy: u32, size: f32, shape: usize, kind: TargetKind, r: &mut Report) {
+fn check_cull_small(cx: u32, cy: u32, size: f32, shape: usize, kind: TargetKind, r: &mut Report) { check_cull_small_in(8, 8, cx, cy, size, shape, kind, r) }
+
+/// The same in a `bw` x `bh` frame (small triangles far from the screen origin).
+fn check_cull_small_in(bw: u32, bh: u32, cx: u32, cy: u32, size: f32, shape: usize, kind: TargetKind, r: &mut Report) {
     r.eval();
-    let (bw, bh, vp) = (8u32, 8u32, (0u32, 0u32, 8u32, 8u32));
+    let vp = (0u32, 0u32, bw, bh);
+    let (hw, hh) = (bw as f32 / 2.0, bh as f32 / 2.0);
     let c = (cx as f32 + 0.5, cy as f32 + 0.5);
     let offs: [[f32; 2]; 3] = [[[-1.0, -0.7], [1.0, -0.6], [0.0, 1.0]], [[-1.0, 0.9], [0.1, -1.0], [0.9, 0.8]], [[-3.0, -0.5], [3.0, -0.4], [0.2, 0.6]]][shape];
     let w = [1.0f32, 2.0, 0.5][shape];
-    let t = STri { v: std::array::from_fn(|k| { let (px, py) = (c.0 + size * offs[k][0], c.1 + size * offs[k][1]); [(px / 4.0 - 1.0) * w, (py / 4.0 - 1.0) * w, 0.1 * w, w] }), a: PERMS[shape] };
-    let s: Vec<[f64; 2]> = (0..3).map(|k| [(c.0 + size * offs[k][0]) as f64, (c.1 + size * offs[k][1]) as f64]).collect();
+    let t = STri { v: std::array::from_fn(|k| { let (px, py) = (c.0 + size * offs[k][0], c.1 + size * offs[k][1]); [(px / hw - 1.0) * w, (py / hh - 1.0) * w, 0.1 * w, w] }), a: PERMS[shape] };
+    // (the corners as the viewport transform will place them, so that the expected winding is that of the triangle actually drawn)
+    let s: Vec<[f64; 2]> = (0..3).map(|k| [((t.v[k][0] / t.v[k][3]) as f64 + 1.0) * hw as f64, ((t.v[k][1] / t.v[k][3]) as f64 + 1.0) * hh as f64]).collect();
     let area2 = (s[1][0] - s[0][0]) * (s[2][1] - s[0][1]) - (s[1][1] - s[0][1]) * (s[2][0] - s[0][0]);
     // margin of the pixel centre to the three edges
     let p = [c.0 as f64, c.1 as f64];
@@ -724,8 +807,8 @@ fn check_cull_small(cx: u32, cy: u32, size: f32, shape: usize, kind: TargetKind,
     if margin < 0.002 { r.h("cull-small:centre-too-close-to-an-edge"); return; }
     let rev = STri { v: [t.v[0], t.v[2], t.v[1]], a: [t.a[0], t.a[2], t.a[1]] };
     let draw = |tri: &STri, cull: Option<FaceCull>| render_scene(&Scene { tris: vec![tri.clone()], bw, bh, vp }, None, Door::Render, kind, &Context { face_cull: cull, ..Context::default() }, Discard::Never, None).map(|o| o.stats.frags.i);
-    let case = || obj! {"kind" => "cull-small", "cx" => cx as u64, "cy" => cy as u64, "size" => fbits(size), "shape" => shape as u64, "target" => format!("{kind:?}")};
-    let tag = format!("{kind:?}|centre({cx},{cy})|size={size}|shape{shape}");
+    let case = || obj! {"kind" => "cull-small", "bw" => bw as u64, "bh" => bh as u64, "cx" => cx as u64, "cy" => cy as u64, "size" => fbits(size), "shape" => shape as u64, "target" => format!("{kind:?}")};
+    let tag = format!("{kind:?}|{bw}x{bh}|centre({cx},{cy})|size={size}|shape{shape}");
     let (Ok(fa), Ok(fb)) = (draw(&t, None), draw(&rev, None)) else { r.violation(format!("render-panic|{tag}"), "render panicked".into(), case()); return; };
     if fa == 0 || fb == 0 { r.violation(format!("cull-off-one-order-missing|small|{tag}"), format!("culling off: the two vertex orders of a {size} px triangle around a pixel centre (margin {margin:.4} px) produced {fa} and {fb} fragments"), case()); return; }
     for (mode, name) in [(FaceCull::Back, "Back"), (FaceCull::Front, "Front")] {
@@ -858,6 +941,9 @@ fn run_config(cfg: &Cfg) -> ! {
         scenes.push(Scene { tris: vec![STri { v: [a.v[0], a.v[2], a.v[1]], a: a.a }], bw, bh, vp });
         for (j, b) in pool.iter().enumerate() { if (i + 2 * j) % 5 == 0 && i != j { scenes.push(Scene { tris: vec![a.clone(), b.clone()], bw, bh, vp }); if (i + j) % 3 == 0 { scenes.push(Scene { tris: vec![b.clone(), a.clone(), pool[(i + j) % pool.len()].clone()], bw, bh, vp }); } } }
     }
+    // histories inside one call: a triangle that needs clipping yet leaves nothing (#17, past the top-right corner), then
+    // - directly or after an untouched one - triangles that are partially clipped (#7, #8, #18), and the reverse orders
+    for seq in [vec![17usize, 7], vec![17, 8], vec![17, 18], vec![17, 4, 7], vec![7, 17], vec![17, 10, 8, 17, 18], vec![8, 17, 7]] { scenes.push(Scene { tris: seq.iter().map(|&k| pool[k].clone()).collect(), bw: 8, bh: 8, vp: (0, 0, 8, 8) }); }
     scenes.push(Scene { tris: vec![], bw: 4, bh: 4, vp: (0, 0, 4, 4) });
     // scale sentinels: hundreds of triangles in one call (counters beyond 255), and a wide buffer (columns beyond 255)
     scenes.push(Scene { tris: (0..300).map(|k| pool[k % pool.len()].clone()).collect(), bw: 8, bh: 8, vp: (0, 0, 8, 8) });
@@ -897,6 +983,8 @@ fn run_config(cfg: &Cfg) -> ! {
     }));
     rep.merge(par_range(cfg, 9 * 6, |i, r| check_solid_culling((i % 9) as usize, (i / 9) as usize, r)));
     // triangles of 1/2 .. 1/512 px around every pixel centre of the 8x8 frame x 3 shapes x 2 targets
+    // ... and far from the screen origin of a 1920 x 1080 frame (non-lattice corners: sizes 0.15 .. 0.7 px)
+    rep.merge(par_range(cfg, 6 * 6 * 3, |i, r| { let (cx, cy) = [(1900u32, 1060u32), (1919, 1079), (1000, 700), (1700, 300), (1899, 541), (961, 1071)][(i % 6) as usize]; check_cull_small_in(1920, 1080, cx, cy, [0.15f32, 0.2, 0.3, 0.45, 0.6, 0.7][(i / 6 % 6) as usize], (i / 36) as usize, TargetKind::Owned, r) }));
     rep.merge(par_range(cfg, 64 * 9 * 3 * 2, |i, r| check_cull_small((i % 8) as u32, (i / 8 % 8) as u32, [0.5f32, 0.25, 0.125, 0.0625, 0.03125, 0.015625, 0.0078125, 0.00390625, 0.001953125][(i / 64 % 9) as usize], (i / 576 % 3) as usize, [TargetKind::Owned, TargetKind::ColorOnly][(i / 1728) as usize], r)));
     // statistics accumulate over calls, including calls in which nothing survives
     for (si, sc) in scenes.iter().enumerate().take(if quick { 60 } else { scenes.len() }) {
@@ -938,7 +1026,7 @@ fn main() {
                 "accum" => { let pool = order_pool(); check_accumulation(&scene_from(c.get("scene").unwrap()), 0, &pool[10], r) }
                 "solid" => check_solid_culling(c.get("solid").unwrap().as_u64().unwrap() as usize, c.get("view").unwrap().as_u64().unwrap() as usize, r),
                 "cull" => { let s = scene_from(c.get("scene").unwrap()); check_cull(&s.tris[0], s.bw, s.bh, s.vp, kind(c), r) }
-                "cull-small" => check_cull_small(c.get("cx").unwrap().as_u64().unwrap() as u32, c.get("cy").unwrap().as_u64().unwrap() as u32, parse_fbits(c.get("size").unwrap()).unwrap(), c.get("shape").unwrap().as_u64().unwrap() as usize, kind(c), r),
+                "cull-small" => check_cull_small_in(c.get("bw").and_then(|j| j.as_u64()).unwrap_or(8) as u32, c.get("bh").and_then(|j| j.as_u64()).unwrap_or(8) as u32, c.get("cx").unwrap().as_u64().unwrap() as u32, c.get("cy").unwrap().as_u64().unwrap() as u32, parse_fbits(c.get("size").unwrap()).unwrap(), c.get("shape").unwrap().as_u64().unwrap() as usize, kind(c), r),
                 k => machinery_error(&format!("replay kind {k} unsupported")),
             }
         });
